@@ -447,6 +447,10 @@ func scenarios(thorough bool) []scenario {
 		// q,p expired, s fresh: cleanup removes q (swap-with-last) while p is refreshed
 		mk("refresh-vs-entry-cleanup", []step{u(Q, 0), u(P, 0), adv(exp), u(F, 0)},
 			"cleaner", []step{ce()}, "a0", []step{u(P, 1), g(8)}),
+		// the refreshed peer announces a second time after the cleanup pass: an entry whose
+		// index bookkeeping was damaged by the race would now be appended twice
+		mk("refresh-twice-vs-entry-cleanup", []step{u(Q, 0), u(P, 0), adv(exp)},
+			"cleaner", []step{ce()}, "a0", []step{u(P, 1), u(P, 0), g(8)}),
 		// the only entry of the group expired: group is being deleted while a new peer announces
 		mk("newpeer-vs-group-delete", []step{u(Q, 0), adv(exp)},
 			"cleaner", []step{cg()}, "a0", []step{u(P, 0), g(8)}),
